@@ -77,7 +77,7 @@ func checkC10(c *Ctx) {
 			if inner != nil {
 				pos = inner.Pos()
 			}
-			c.Check(ok, "R10.4", fn.String(), "visits-all", pos, "every element of %s is visited whatever the earlier ones returned %s", fn.Params[0].Name(), why)
+			c.Check(ok, "R10.4", fn.String(), "visits-all", pos, "every element of %s is visited whatever the earlier ones returned %s", PN(fn.Params[0]), why)
 			if inner == nil {
 				continue
 			}
@@ -109,7 +109,7 @@ func checkC10(c *Ctx) {
 	// CheckedEntry.Write reports the aggregate
 	cw := c.Method(CorePath, "CheckedEntry", "Write")
 	if cw != nil {
-		rc := cw.Params[0].Name()
+		rc := PN(cw.Params[0])
 		// atoms that test the aggregate error against nil
 		aggAtoms := map[string]bool{}
 		for _, f := range Region(cw) {
@@ -202,10 +202,11 @@ func checkC10(c *Ctx) {
 				st = s
 			}
 		})
-		ok := st != nil && Desc(st.Val) == "log.errorOutput"
+		ln := PN(chk.Params[0])
+		ok := st != nil && Desc(st.Val) == ln+".errorOutput"
 		if ok {
 			// every return reached with willWrite true is dominated by the store
-			isWW := func(a string) bool { return strings.HasPrefix(a, "Check(log.core,") && strings.HasSuffix(a, " != nil") }
+			isWW := func(a string) bool { return strings.HasPrefix(a, "Check("+ln+".core,") && strings.HasSuffix(a, " != nil") }
 			ok = HasAtom(Guards(st), isWW)
 			for _, r := range Returns(chk) {
 				if HasAtom(Guards(r), isWW) && !Dominates(st, r) {
